@@ -30,8 +30,8 @@ def theorems_of(module: str, only: list[str] | None = None) -> list[str]:
     return [prefix + n for n in names if only is None or n in only]
 
 
-ANALYSER_PARTS = {"C04": ["C04a"], "C05": ["C05a"], "C06": ["C06a"], "C07": ["C07a"], "C15": ["C15a", "C15b"], "C13": ["C13a"],
-                  "C03": ["C03a"], "C02": ["C02a"], "C01": ["C01b"], "C08": ["C08b"], "C10": ["C10b"], "C12": ["C12b"],
+ANALYSER_PARTS = {"C04": ["C04a"], "C05": ["C05a"], "C06": ["C06a"], "C07": ["C07a"], "C15": ["C15a", "C15b"], "C13": ["C13a"], "C14": ["C14b"], "C16": ["C16b"],
+                  "C03": ["C03a", "C03b"], "C02": ["C02a"], "C01": ["C01b"], "C08": ["C08b"], "C10": ["C10b"], "C12": ["C12b"],
                   "C18": ["C18b"]}
 """further theorem files of a property: `a` = the analyser half (mypy nodes -> API model), `b` = the whole-tool part
 (Model/Pipeline.lean: discovery, alias table, walk, API JSON text, generator, writes)"""
@@ -52,7 +52,7 @@ D = "StubGen.Theorems.Decisions"
 
 PROPS = {
     "C01": spec("C01", [stage_gen.run, stage_ana.run, stage_e2e.run, stage_pipe.run]),
-    "C03": spec("C03", [stage_gen.run, stage_ana.run, stage_e2e.run]),
+    "C03": spec("C03", [stage_gen.run, stage_ana.run, stage_e2e.run, stage_pipe.run]),
     "C04": spec("C04", [stage_gen.run, stage_ana.run, stage_e2e.run]),
     "C17": spec("C17", [stage_gen.run, stage_e2e.run]),
     "C02": spec("C02", [stage_names.run, stage_gen.run, stage_e2e.run], [T],
@@ -69,9 +69,9 @@ PROPS = {
     "C18": spec("C18", [stage_meta.run, stage_gen.run]),
     "C12": spec("C12", [stage_ana.run, stage_e2e.run, stage_pipe.run]),
     "C13": spec("C13", [stage_doc.run, stage_gen.run, stage_e2e.run]),
-    "C14": spec("C14", [stage_ana.run, stage_e2e.run]),
+    "C14": spec("C14", [stage_ana.run, stage_e2e.run, stage_pipe.run]),
     "C15": spec("C15", [stage_disc.run, stage_pipe.run], [T], ["StubGen.Tables.excluded_dirs"]),
-    "C16": spec("C16", [stage_gen.run, stage_e2e.run]),
+    "C16": spec("C16", [stage_gen.run, stage_e2e.run, stage_pipe.run]),
     "C19": spec("C19", [stage_types.run], [T], ["StubGen.Tables.type_kinds"]),
     "C20": spec("C20", [stage_gen.run, stage_e2e.run], [T, D],
                 ["StubGen.Tables.todo_keys", "StubGen.Tables.todo_messages_distinct", "StubGen.Decisions.parameter_string_table"]),
